@@ -121,16 +121,40 @@ class Case:
 
 
 # ------------------------------------------------------------------------------------------- the three sides
+DRIVER_CHUNK = 100
+
+
+def run_driver(ctx: Ctx, cases: list) -> None:
+    """Fill `case.model` for every case (None when the interpreter of the model did not finish in time on it —
+    such programs are excluded from the comparison and counted; a tool limit, not a verdict)."""
+    todo = [c for c in cases if not hasattr(c, "model")]
+    for i in range(0, len(todo), DRIVER_CHUNK):
+        chunk = todo[i:i + DRIVER_CHUNK]
+        try:
+            lines = ctx.lean_driver("Driver/C01.lean", [c.lean for c in chunk], timeout=240)
+            if len(lines) != len(chunk):
+                raise ToolFailure(f"driver returned {len(lines)} lines for {len(chunk)} programs")
+            for c, l in zip(chunk, lines):
+                c.model = parse_model_line(l)
+        except ToolFailure as e:
+            if "timed out" not in str(e):
+                raise
+            for c in chunk:
+                try:
+                    c.model = parse_model_line(ctx.lean_driver("Driver/C01.lean", [c.lean], timeout=30)[0])
+                except ToolFailure as e2:
+                    if "timed out" not in str(e2):
+                        raise
+                    c.model = None
+                    ctx.dist("excluded", "driver-timeout")
+
+
+
 def run_three(ctx: Ctx, cases: list[Case]):
     import time
     t0 = time.time()
-    todo = [c for c in cases if getattr(c, "model", None) is None]
-    if todo:
-        lines = ctx.lean_driver("Driver/C01.lean", [c.lean for c in todo])
-        if len(lines) != len(todo):
-            raise ToolFailure(f"driver returned {len(lines)} lines for {len(todo)} programs")
-        for c, l in zip(todo, lines):
-            c.model = parse_model_line(l)
+    run_driver(ctx, cases)
+    cases[:] = [c for c in cases if c.model is not None]
     model = [c.model for c in cases]
     t1 = time.time()
     mres = R.check_batch({c.name: c.src for c in cases})
@@ -288,11 +312,10 @@ def model_stream(ctx: Ctx, n: int) -> list[Case]:
             p, calls = g.program()
             cand.append(Case(f"m{serial}", p, calls, "generated"))
             serial += 1
-        lines = ctx.lean_driver("Driver/C01.lean", [c.lean for c in cand])
-        if len(lines) != len(cand):
-            raise ToolFailure(f"driver returned {len(lines)} lines for {len(cand)} programs")
-        for c, l in zip(cand, lines):
-            c.model = parse_model_line(l)
+        run_driver(ctx, cand)
+        for c in cand:
+            if c.model is None:
+                continue
             kind = c.model["tc"].split(" ")[0]
             if kind in ("unsupported", "fuel") and _round < 3:
                 ctx.dist("generated_outside_fragment", c.model["tc"])
@@ -384,8 +407,8 @@ def known_stream(ctx: Ctx) -> None:
     inmodel = [c for c in cases if c.prog is not None]
     correspond(ctx, inmodel, "known")
     # the model must classify its own witnesses as the Lean theorems say
-    model = [parse_model_line(l) for l in ctx.lean_driver("Driver/C01.lean", [c.lean for c in inmodel])]
-    for c, m in zip(inmodel, model):
+    for c in inmodel:
+        m = c.model
         if (m["wf"], m["tc"]) != EXPECTED_MODEL[c.name]:
             raise ToolFailure(f"driver classifies witness {c.name} as wf={m['wf']} tc={m['tc']}, expected {EXPECTED_MODEL[c.name]}")
     raw = [c for c in cases if c.prog is None]
